@@ -425,6 +425,30 @@ theorem processor_builds_once [DecidableEq H] (cfg : Cfg) (pc : PCfg) (f : HashF
     (procRun cfg pc f rs sg s p ops)[j]? ≠ some (.handled bj (some mj) ej) :=
   procRun_builds_at_most_once cfg pc f rs sg s ops p i j hij ui uj si sj bi bj mi mj ei ej hi hj hk hbi
 
+/-- What is handed to `broadcastUnit`, in ANY step (building or not), in any state: at most one
+unit; it carries the local shard index of the receiver for this publisher; it is the unit just
+accepted, or — only in the step that builds — the filled local unit (whose content
+`processor_broadcasts_publishers_unit` pins down). -/
+theorem processor_broadcasts_only_local_index [DecidableEq H] (cfg : Cfg) (pc : PCfg) (f : HashFns H)
+    (rs : RS) (sg : SigScheme H) (s : Sched) (p : Proc H) (u : PUnit H) (sender : Bytes)
+    (bc : List (PUnit H)) (b : Option Bytes) (e : Option Bool)
+    (h : (procStep cfg pc f rs sg s p u sender).2 = .handled bc b e) :
+    bc.length ≤ 1 ∧
+    ∃ li, s.shardIndexFor u.publisher = .ok li ∧ ∀ lu ∈ bc, lu.index = li ∧ (lu = u ∨ b ≠ none) :=
+  ⟨(procStep_bcast_marks_sent cfg pc f rs sg s p u sender bc b e h).1,
+   (procStep_bcast_marks_sent cfg pc f rs sg s p u sender bc b e h).2.2⟩
+
+/-- `processor_broadcasts_once`: over any sequence of units from the empty processor, the local unit
+of a message key is handed to `broadcastUnit` at most once. -/
+theorem processor_broadcasts_once [DecidableEq H] (cfg : Cfg) (pc : PCfg) (f : HashFns H) (rs : RS)
+    (sg : SigScheme H) (s : Sched) (ops : List (PUnit H × Bytes)) (i j : Nat) (hij : i < j)
+    (ui uj : PUnit H) (si sj : Bytes) (bi bj : List (PUnit H)) (mi mj : Option Bytes) (ei ej : Option Bool)
+    (hi : ops[i]? = some (ui, si)) (hj : ops[j]? = some (uj, sj)) (hk : keyOf ui = keyOf uj)
+    (hbi : (procRun cfg pc f rs sg s Proc.empty ops)[i]? = some (.handled bi mi ei)) (hne : bi ≠ [])
+    (hbj : (procRun cfg pc f rs sg s Proc.empty ops)[j]? = some (.handled bj mj ej)) : bj = [] :=
+  procRun_broadcasts_at_most_once cfg pc f rs sg s ops Proc.empty (procInv_empty s) i j hij ui uj si sj
+    bi bj mi mj ei ej hi hj hk hbi hne hbj
+
 /-- `rejected_unit_is_noop` (with `noPoison`, proposed-fixes/C19-processor-first-invalid-unit-no-poison.diff)
 — "a unit … that does not match is rejected and cannot cause … the receiver to fail": in any
 reachable state a unit rejected by the validator of its message key triggers no broadcast and no
@@ -605,6 +629,8 @@ theorem unit_from_proto_before_fix_a0ebef4 (pu : ProtoUnit) :
 example : Ideal termFns := ideal_termFns
 example : RSLaws trivialCode 1 0 := trivialCode_laws
 example : RSLaws repCode11 1 1 := repCode11_laws
+-- a codec with two data shards (XOR parity): the hypotheses are satisfiable beyond k = 1
+example : RSLaws xorCode21 2 1 := xorCode21_laws
 example : PadInput [1, 2, 3] 3 := by unfold PadInput; decide
 example : rsNewOk 3 6 = true := by decide
 example : RoutesOk (⟨fun _ => [1], fun _ _ _ => true, fun _ => true⟩ : SigScheme HTerm) [] := routesOk_nil _
